@@ -362,7 +362,7 @@ func Generate(r *Rng, npkg int, shape string, tests bool) *Mod {
 				}
 			}
 		}
-		if r.P(120) {
+		if r.P(250) {
 			p.Conf = Confs[r.N(len(Confs))]
 		}
 		m.Pkgs = append(m.Pkgs, p)
@@ -382,6 +382,10 @@ var Confs = []string{
 	"initialisms = [\"ACL\"]\n",
 	"checks = [\"SA*\", \"-SA1019\"]\ninitialisms = []\n",
 	"checks = [\"inherit\", \"-U1000\"]\n",
+	// literal lists: no "all", no "inherit"
+	"checks = [\"SA4000\"]\n",
+	"checks = [\"S1002\", \"ST1003\", \"SA4018\"]\n",
+	"checks = [\"U1000\", \"SA1019\"]\n",
 }
 
 // Clone returns a deep copy.
